@@ -1243,6 +1243,13 @@ func main() {
 		for i := 0; i < n; i++ {
 			gen.Emit(runBloomCase(i, genBloomCase(r), workDir()))
 		}
+		nv := 4
+		if len(os.Args) >= 4 {
+			nv, _ = strconv.Atoi(os.Args[3])
+		}
+		for i := 0; i < nv; i++ {
+			gen.Emit(runBloomCase(n+i, genVerticalCase(r), workDir()))
+		}
 		return
 	}
 	r := gen.FromEnv(20)
